@@ -95,7 +95,7 @@ func encodeSide(d *vdev, side string) []string {
 				peer = "S:" + p
 			}
 			id := len(maps[name]) - 1
-			maps[name] = append(maps[name], fmt.Sprintf("%d~%s~%s~%s~%s~%s", id, w[3], key, orig, peer, strings.Join(refs, ",")))
+			maps[name] = append(maps[name], fmt.Sprintf("%d~%s~%s~%s~%s~%s~%s", id, w[3], key, orig, peer, strings.Join(refs, ","), cryptoAttrKey(w)))
 		}
 	}
 	var ms []string
@@ -118,9 +118,6 @@ type leanAns struct {
 // check compares the model's change list with the real one; the answer also carries what the Lean device
 // makes of it (compared with dev.go and with the real second compare by the caller).
 func (l *leanTie) check(c cfgCase, out string) *leanAns {
-	if !(l.ctx.Prop == "C01" || l.ctx.Prop == "C10") {
-		return nil
-	}
 	if !inFragment(c.dev) || !inFragment(c.spoc) {
 		return nil
 	}
@@ -258,9 +255,6 @@ func (l *leanTie) matchTie(c cfgCase) {
 
 // finish: matchCryptoMap on inputs of its own (dynamic peers, entries without peer, colliding and huge numbers).
 func (l *leanTie) finish() {
-	if !(l.ctx.Prop == "C01" || l.ctx.Prop == "C10") {
-		return
-	}
 	r := l.ctx.Rng.Fork()
 	n := l.ctx.N(1500, 20000)
 	genSide := func(name string, dev bool) []mcmd {
